@@ -75,11 +75,19 @@ func (s *arraiServer) Observe(req *pb.ObserveReq, stream pb.Arrai_ObserveServer)
 	if err != nil {
 		return err
 	}
-	retch := make(chan error)
+	// Only the first outcome is reported to the client; the callbacks run on the engine goroutine and must
+	// never block on this handler.
+	retch := make(chan error, 1)
+	report := func(err error) {
+		select {
+		case retch <- err:
+		default:
+		}
+	}
 
 	send := func(resp *pb.ObserveResp) error {
 		if err = stream.Send(resp); err != nil {
-			retch <- err
+			report(err)
 			return err
 		}
 		return nil
@@ -98,7 +106,7 @@ func (s *arraiServer) Observe(req *pb.ObserveReq, stream pb.Arrai_ObserveServer)
 	}
 
 	onclose := func(err error) {
-		retch <- err
+		report(err)
 	}
 
 	s.engine.Observe(expr, onupdate, onclose)
